@@ -37,6 +37,9 @@ pub mod parse_error;
 mod parser;
 mod variables;
 
+#[cfg(feature = "verif-hooks")]
+pub mod verif_hooks;
+
 pub use execution::error::ExecutionError;
 pub use execution::CancellationError;
 pub use execution::CancellationFlag;
